@@ -756,6 +756,24 @@ func run(c *runner.Ctx) {
 			L []string
 			M map[string]string
 		}{"{a,b,}", []string{",}", "[1,]", ",]", "},{", ":{", "null", "true"}, map[string]string{",}": "x,}", "a,]": "]"}}},
+		// strings that are, as a whole, JSON arrays / objects / literals themselves (none needs escaping): still strings
+		{"struct{S, T string; L []string; M map[string]string} with strings that are JSON documents", struct {
+			S, T string
+			L    []string
+			M    map[string]string
+		}{"[]", "{}", []string{"[1, 2, 3]", "[7]", "[[]]", "[null]", "{}", "[]", "123", "1e5", "-0", "null", "false"}, map[string]string{"[]": "{}", "{}": "[1]", "[2]": "x", "7": "[true]"}}},
+		// structs that emit no field at all (empty, or unexported fields only) in front of, between and behind ordinary fields
+		{"field-less structs between fields", struct {
+			E  struct{}
+			A  int
+			U  struct{ hidden int }
+			B  string
+			P  *struct{}
+			C  []struct{}
+			D  map[string]struct{ x int }
+			Z  int
+			E2 struct{}
+		}{A: 1, B: "b", P: &struct{}{}, C: []struct{}{{}, {}}, D: map[string]struct{ x int }{"k": {}}, Z: 9}},
 	}
 	for _, nv := range named {
 		if !c.Take() {
